@@ -96,3 +96,108 @@ func c03ResponseOutlivesContext(ctx *core.Ctx, r *RT) {
 		ctx.Discharge("C03.R12", "HTTP client › no cancellable request context is created by the runtime", "", "nothing to cancel before the body is read")
 	}
 }
+
+// liftedMax: the largest number of instructions satisfying pred on any path
+// through fn, helpers of the package counted with all their returns; a `go`
+// statement counts as the maximum of the function it starts.
+func liftedMax(fn *ssa.Function, pred func(ssa.Instruction) bool, depth int) int {
+	memo := map[*ssa.Function]int{}
+	var rec func(g *ssa.Function, d int) int
+	rec = func(g *ssa.Function, d int) int {
+		if v, ok := memo[g]; ok {
+			return v
+		}
+		memo[g] = 0
+		_, hi := ssax.CountOnPathsToW(g, nil, func(in ssa.Instruction) (int, int) {
+			if pred(in) {
+				return 1, 1
+			}
+			if d <= 0 {
+				return 0, 0
+			}
+			var callee *ssa.Function
+			switch x := in.(type) {
+			case *ssa.Call:
+				callee = x.Call.StaticCallee()
+			case *ssa.Go:
+				callee = x.Call.StaticCallee()
+			}
+			if callee != nil && callee.Pkg == fn.Pkg && len(callee.Blocks) > 0 {
+				return 0, rec(callee, d-1)
+			}
+			return 0, 0
+		}, func(*ssa.Return) bool { return true })
+		// inside a loop the count is unbounded: report 2 for "more than once"
+		ssax.Instrs(g, func(in ssa.Instruction) {
+			if inCycle(in) {
+				if pred(in) {
+					hi = 2
+				}
+				if c, ok := in.(*ssa.Call); ok && d > 0 {
+					if callee := c.Call.StaticCallee(); callee != nil && callee.Pkg == fn.Pkg && len(callee.Blocks) > 0 && rec(callee, d-1) > 0 {
+						hi = 2
+					}
+				}
+			}
+		})
+		memo[g] = hi
+		return hi
+	}
+	return rec(fn, depth)
+}
+
+// c03TransmitOnce — C03.R14/R15.
+//
+// R14: the handler runs once per call because the request goes out once: on
+// no path through Request/Oneway is the request handed to the wire a second
+// time (HTTP round trip, NATS publish, flush of the stream). A retry after an
+// error that can also mean "processed, response lost" runs the handler twice.
+//
+// R15: the NATS server discards a message without reply subject as invalid;
+// the NATS client therefore publishes every request — one-way included — with
+// PublishRequest and its inbox, never with the reply-less Publish.
+func c03TransmitOnce(ctx *core.Ctx, r *RT) {
+	ctx.Rule("C03.R14", "a request is handed to the wire at most once per call: no second HTTP round trip / NATS publish / flush on any path through Request or Oneway", 4)
+	ctx.Rule("C03.R15", "the NATS client publishes every request with a reply subject (the server discards reply-less messages)", 1)
+	isTransmit := func(in ssa.Instruction) bool {
+		c, ok := ssax.AsCall(in)
+		if !ok {
+			return false
+		}
+		if _, isGo := in.(*ssa.Go); isGo {
+			return false
+		}
+		switch c.FullName() {
+		case "(*net/http.Client).Do", "(*github.com/nats-io/nats.go.Conn).PublishRequest", "(*github.com/nats-io/nats.go.Conn).Publish", "(*github.com/nats-io/nats.go.Conn).PublishMsg":
+			return true
+		}
+		return c.Method != nil && c.Method.Name() == "Flush" && ssax.TypeNamed(c.Common.Value.Type(), "thrift", "TTransport")
+	}
+	nNats := 0
+	for _, m := range []string{"Request", "Oneway"} {
+		for _, fn := range r.Impl("FTransport", m) {
+			if len(fn.Blocks) == 0 {
+				continue
+			}
+			mx := liftedMax(fn, isTransmit, 3)
+			ctx.Check(mx <= 1, "C03.R14", ssax.Name(fn)+" › transmits at most once", fnPos(r, fn), sprintf("at most %d transmission(s) on any path", mx),
+				"a path through the call hands the request to the wire more than once (a retry): the errors that look like a stale connection — EOF, connection reset — also occur after the server processed the request and before the response arrived, so the handler runs twice for one call and the caller gets the second outcome")
+			for _, g := range localCone(fn, 2) {
+				for _, c := range ssax.Calls(g) {
+					switch c.FullName() {
+					case "(*github.com/nats-io/nats.go.Conn).PublishRequest":
+						nNats++
+						ctx.Discharge("C03.R15", ssax.Name(fn)+sprintf(" › publish #%d carries a reply subject", nNats), r.IPos(c.Instr), "PublishRequest")
+					case "(*github.com/nats-io/nats.go.Conn).Publish":
+						nNats++
+						ctx.Violate("C03.R15", ssax.Name(fn)+sprintf(" › publish #%d carries a reply subject", nNats), r.IPos(c.Instr),
+							"the request is published without a reply subject: fNatsServer's handler discards such a message as invalid, so the call returns nil and the handler is never invoked")
+					}
+				}
+			}
+		}
+	}
+	if nNats == 0 {
+		ctx.Unresolved("C03.R15", "NATS client", "no publish in the NATS client transport")
+	}
+}
